@@ -142,7 +142,8 @@ def cmd_run(args):
         out = os.path.join(ROOT, "build", "out", "%s-%s-%s.txt" % (pid, tag, fl_entry.replace(":", "-")))
         if os.path.exists(out):
             os.remove(out)
-        cmd = [binary, "--tier", tier, "--out", out, "--deadline", str(per_flavour_deadline), "--seed", str(seed)]
+        fl_deadline = cfg.get("deadline_by_flavour", {}).get(tier, {}).get(fl_entry, per_flavour_deadline) if not args.deadline else per_flavour_deadline
+        cmd = [binary, "--tier", tier, "--out", out, "--deadline", str(fl_deadline), "--seed", str(seed)]
         if args.only:
             cmd += ["--only", args.only]
         r = subprocess.run(cmd, cwd=ROOT, stdout=subprocess.PIPE, stderr=subprocess.PIPE, text=True, errors="replace")
